@@ -11,6 +11,10 @@ pub fn build(family: &str, rng: &mut Rng, index: u64) -> Option<Plan> {
 		"F2p" => f2p(index),
 		"F2n" => f2n(index),
 		"F2" => f2(index),
+		"F2b" => f2b(index),
+		"F2h" => f2h(index),
+		"F2s" => f2s(index),
+		"F6k" => f6k(index),
 		"F4" => Some(f4(rng, index)),
 		// issuance swarm: standard hooks (C01/C04/C05/C13) and generated hook tables (C10)
 		"F1" => Some(super::f1::build(rng, &super::f1::F1Opts { max_certs: 3, max_ids: 8, generated_hooks: false, hard_hook_failures: false, owners: true, eab: true, allow_rsa4096: index % 97 == 0 })),
@@ -567,4 +571,93 @@ fn f5(rng: &mut Rng, _index: u64) -> Plan {
 	}
 	p.ops = ops;
 	p
+}
+
+/// F2b: the single-fault grid on 24 further base plans: (kp_reuse x pre-existing pair) x key type
+/// {ecdsa-p384, ed25519, rsa2048} x identifier sets {one http-01 name, three names with three
+/// challenge types}.  Thorough tier.
+fn f2b(index: u64) -> Option<Plan> {
+	let kinds = net_fault_kinds();
+	let g = grid(index, &[24, ALL_POSITIONS.len() as u64, kinds.len() as u64])?;
+	let v = g[0];
+	let (class, nth) = ALL_POSITIONS[g[1] as usize];
+	let mut p = grid_base(v % 4, 2);
+	let kt = ["ecdsa-p384", "ed25519", "rsa2048"][((v / 4) % 3) as usize];
+	p.config.certificates[0].key_type = Some(kt.into());
+	if !p.world.pre_files.is_empty() {
+		p.world.pre_files[0].content = format!("key:{}", kt);
+	}
+	p.config.certificates[0].identifiers = if (v / 12) % 2 == 0 {
+		vec![ident("only.grid.sim", "http-01")]
+	} else {
+		vec![ident("a.grid.sim", "tls-alpn-01"), ident("b.grid.sim", "dns-01"), ident("c.grid.sim", "http-01")]
+	};
+	p.config.accounts[0].key_type = Some(["ed448", "ecdsa-p521", "ecdsa-p256"][((v / 4) % 3) as usize].into());
+	p.faults.push(Fault { site: "net".into(), ca: 0, class: class.into(), nth, count: 1, kind: kinds[g[2] as usize].clone(), ..Default::default() });
+	p.note = format!("F2b base {} {}#{} x {}", v, class, nth, super::super::ca::fault_name(&kinds[g[2] as usize]));
+	Some(p)
+}
+
+const HOOK_EXITS: [i32; 7] = [1, 2, 126, 127, 255, -1, -2];
+
+/// F2h: every hook of the base plan (challenge, clean, post-operation and a file hook attached to
+/// certificate and account) x invocation 1..3 x exit status kind (codes, death by signal, spawn
+/// failure) x 4 base plans; two attempts.
+fn f2h(index: u64) -> Option<Plan> {
+	let hooks = ["h-http", "h-http-clean", "h-dns", "h-dns-clean", "h-post", "h-file"];
+	let g = grid(index, &[4, hooks.len() as u64, 3, HOOK_EXITS.len() as u64])?;
+	let mut p = grid_base(g[0], 2);
+	let hf = hook("h-file", &["file-pre-create", "file-post-create", "file-pre-edit", "file-post-edit"], file_args("h-file"));
+	p.config.hooks.push(hf);
+	p.config.certificates[0].hooks.push("h-file".into());
+	p.config.accounts[0].hooks = vec!["h-file".into()];
+	p.faults.push(Fault { site: "proc".into(), hook: hooks[g[1] as usize].into(), nth: g[2] + 1, count: 1, kind: FaultKind::Exit { code: HOOK_EXITS[g[3] as usize] }, ..Default::default() });
+	p.ops = vec![Op::Run { attempts: 2, max_virtual_s: 7200, only: vec![] }, Op::Run { attempts: 2, max_virtual_s: 7200, only: vec![] }];
+	p.note = format!("F2h base {} hook {} call {} exit {}", g[0], hooks[g[1] as usize], g[2] + 1, HOOK_EXITS[g[3] as usize]);
+	Some(p)
+}
+
+/// F2s: storage errors (EIO, ENOSPC, EACCES) at every file operation of the base plan: open for
+/// read/write, read, write (before any byte / after a short write) of key, certificate and account
+/// files.  Outside C07's statement (it names CA, network and hooks): used for the panic / deadlock
+/// / termination oracles only.
+fn f2s(index: u64) -> Option<Plan> {
+	let sels = ["pk:0", "crt:0", "account:acc"];
+	let ops = ["open_w", "open_r", "read", "write"];
+	let errs = ["EIO", "ENOSPC", "EACCES"];
+	let g = grid(index, &[4, sels.len() as u64, ops.len() as u64, errs.len() as u64, 2, 2])?;
+	let mut p = grid_base(g[0], 2);
+	p.faults.push(Fault {
+		site: "fs".into(),
+		path: sels[g[1] as usize].into(),
+		fsop: ops[g[2] as usize].into(),
+		nth: g[4] + 1,
+		count: 1,
+		kind: FaultKind::Errno { errno: errs[g[3] as usize].into(), after: if g[5] == 0 { 0 } else { 57 } },
+		..Default::default()
+	});
+	p.sched.chunk = (16, 64);
+	p.ops = vec![Op::Run { attempts: 2, max_virtual_s: 7200, only: vec![] }, Op::Run { attempts: 2, max_virtual_s: 7200, only: vec![] }];
+	p.note = format!("F2s base {} {} {} {} nth {} after {}", g[0], sels[g[1] as usize], ops[g[2] as usize], errs[g[3] as usize], g[4] + 1, g[5]);
+	Some(p)
+}
+
+/// F6k: all 42 ordered pairs of account key types: register with A, change the configuration to B,
+/// renew (key roll-over A -> B), renew once more.
+fn f6k(index: u64) -> Option<Plan> {
+	let g = grid(index, &[7, 6])?;
+	let a = KEY_TYPES[g[0] as usize];
+	let b = KEY_TYPES.iter().filter(|k| **k != a).nth(g[1] as usize)?;
+	let mut p = super::f6::history(1, a, &[], index);
+	let keep = p.ops.len() - 3;
+	p.ops.truncate(keep);
+	p.ops.push(Op::Stop);
+	p.ops.push(Op::Edit { patch: vec![EditItem::KeyType { account: "acc".into(), key_type: b.to_string() }] });
+	for _ in 0..2 {
+		p.ops.push(Op::Stop);
+		p.ops.push(Op::RemoveFile { cert: 0, which: "crt".into() });
+		p.ops.push(Op::Run { attempts: 2, max_virtual_s: 6000, only: vec![0] });
+	}
+	p.note = format!("F6k roll-over {} -> {}", a, b);
+	Some(p)
 }
